@@ -598,6 +598,20 @@ func main() {
 		fmt.Fprintf(&out, "def columnTypeStringSrc : String := %s\n", fp(bodySrc(fd.Body.List)))
 	}
 
+	// 9b. error.go: the error wrapper
+	errF := parse(rp("error.go"))
+	if fd := findFunc(errF, "newError", ""); fd != nil {
+		fmt.Fprintf(&out, "def error_newErrorSrc : String := %s\n", fp(bodySrc(fd.Body.List)))
+	}
+	for _, name := range []string{"msgf", "Original", "Error"} {
+		if fd := findFunc(errF, name, "Error"); fd != nil {
+			fmt.Fprintf(&out, "def error_%sSrc : String := %s\n", name, fp(bodySrc(fd.Body.List)))
+			if name == "Error" {
+				fmt.Fprintf(&out, "def error_ErrorFormats : List String := %s\n", strList(formatLits(fd, "fmt.Sprintf")))
+			}
+		}
+	}
+
 	// 10. streamer.go, slave_connection.go, transaction.go: structural facts
 	streamerFacts(parse(rp("streamer.go")))
 	connFacts(parse(rp("slave_connection.go")))
